@@ -166,6 +166,8 @@ def analyse(text):
     for idx, (k, v) in enumerate(toks):
         if k in ("url", "bad-url"):
             info["urls"].append(v)
+            if k == "url" and v.strip():
+                info.setdefault("valid_urls", []).append(v)        # a well-formed url token with a non-empty argument: it names a resource
         elif k == "function":
             depth, arg = 0, []
             for k2, v2 in toks[idx + 1:]:
